@@ -16,10 +16,14 @@ META = {
     "note": ("PARTIAL: (1) lockset is sufficient, not necessary — other synchronisation (the record guard that setters run under, "
              "happens-before through channels) is not credited, so a listed pair may be benign when both sides always run under the "
              "guard; (2) only the `beacon` and `treasure` structs are in the table (swamp fields, hydra maps, gateway are not); "
-             "(3) 'every read returns one committed version' is covered only as: readers hold t.mu.RLock while writers do not hold "
-             "t.mu at all (pairs on treasure.treasure); (4) replays are per struct: one race-detector scenario confirms all findings of "
-             "that struct.  Trusted: Lean kernel, extract/c10.go (lock-pattern scan in source order, helper inheritance), harness/c10.go, "
-             "the Go race detector."),
+             "(3) the statement is about unsynchronised access only: 'no request panics' and 'every read returns one committed "
+             "version' are not decided (the latter only as: getters and setters of a treasure exclude each other on t.mu); "
+             "(4) replays are per struct and both scenarios (Set/GetAll on the beacon, Set/Get on a treasure) are replayed on every "
+             "run, whatever the table says; (5) lock modes come from a walk over the statement structure (a branch that returns does "
+             "not pass its unlock on, merges keep the weaker mode); a function literal handed to a call as an argument is taken to "
+             "run during that call, a stored or `go` literal runs unlocked; a map/slice field that is returned directly, through a "
+             "local alias or as a slice expression is an escape.  Trusted: Lean kernel, extract/c10.go, harness/c10.go, the Go race "
+             "detector."),
     "design_ref": "§8 C10",
 }
 
@@ -54,9 +58,9 @@ def run(ctx):
             ok = False
             ctx.hx_log = out
     if ok:
-        ops = ["case 0 race", "race control none"] + ["race %s %s" % tuple(x.split(".", 1)) for x in racy]
-        if not racy:
-            ops += ["race beacon treasuresByKeys", "race treasure treasure"]
+        # both race scenarios are always replayed (a table that misses a race must not hide it), plus one per failing field
+        ops = ["case 0 race", "race control none", "race beacon treasuresByKeys", "race treasure treasure"]
+        ops += [o for o in ("race %s %s" % tuple(x.split(".", 1)) for x in racy) if o not in ops]
         logdir = ctx.path("racelogs")
         os.makedirs(logdir, exist_ok=True)
         c = K.correspondence(ctx, "C10", ["racy=" + ",".join(racy)], hx_env={"HX_RACE_BIN": hxrace, "C10_LOG_DIR": logdir},
